@@ -1,3 +1,4 @@
+pub mod adversarial;
 pub mod ast;
 pub mod enumerate;
 pub mod model;
